@@ -29,15 +29,103 @@ static long drv_failk;	/* 0 = never fail */
 static long drv_nalloc;
 static int drv_inlib;
 
+/* A second request being signed at the same time.  aws_sign.h keeps nothing between calls (all
+ * of a request's state is in its arguments and results), so two requests may be under way at
+ * once - two threads each signing their own.  The single-threaded equivalent: inside the
+ * drv_nestk-th allocation that the OUTER call of a case makes, a complete signing call for
+ * ANOTHER request (other credentials, region, variant, instant) is made and compared with what
+ * the same call returned when it ran alone, before the outer call began; then the outer call goes
+ * on and its result is compared with the model and the spec as always.  drv_nestk and the other
+ * request are functions of the case text.  The nested call runs with drv_inlib = 0 and its own
+ * clock: neither the refusal counter nor the outer call's time() sequence sees it. */
+static long drv_nlib;	/* allocations made by the outer call so far */
+static long drv_nestk;	/* 0 = no second request */
+static uint32_t drv_nesth;
+static int drv_nest_bad;
+static int drv_nest_rc;
+static char * drv_nest_want[3];
+
+static int nest_sign(char * out[3])
+{
+	static const uint8_t body[] = "{\"TableName\":\"other\",\"Key\":{}}";
+	char key_id[32], secret[48], region[24];
+	uint32_t h = drv_nesth;
+	time_t t0 = drv_t0; int tc = drv_tcalls, inlib = drv_inlib, rc, i;
+
+	drv_inlib = 0;
+	snprintf(key_id, sizeof(key_id), "AKIAOTHER%08X", (unsigned)h);
+	snprintf(secret, sizeof(secret), "o%08x/+%08x=%u", (unsigned)(h * 2654435761u), (unsigned)~h, (unsigned)(h % 977));
+	snprintf(region, sizeof(region), "other-%u", (unsigned)(h % 7));
+	drv_t0 = (time_t)1400000000 + (time_t)(h % 400000000u); drv_tcalls = 0;
+	out[0] = out[1] = out[2] = NULL;
+	switch ((h >> 9) & 3) {
+	case 0:
+		rc = aws_sign_s3_headers(key_id, secret, region, "PUT", "otherbucket", "/other/object",
+		    body, sizeof(body) - 1, &out[0], &out[1], &out[2]);
+		break;
+	case 1:
+		out[0] = aws_sign_s3_querystr(key_id, secret, region, "GET", "otherbucket", "/other/object", 900);
+		rc = (out[0] != NULL) ? 0 : -1;
+		break;
+	case 2:
+		rc = aws_sign_svc_headers(key_id, secret, region, "sns", body, sizeof(body) - 1, &out[0], &out[1], &out[2]);
+		break;
+	default:
+		rc = aws_sign_dynamodb_headers(key_id, secret, region, "GetItem", body, sizeof(body) - 1, &out[0], &out[1], &out[2]);
+		break;
+	}
+	if (rc != 0)
+		for (i = 0; i < 3; i++) out[i] = NULL;
+	drv_t0 = t0; drv_tcalls = tc; drv_inlib = inlib;
+	return rc;
+}
+
+static void nest_free(char * v[3])
+{
+	int i;
+	for (i = 0; i < 3; i++) { if (v[i] != NULL) { drv_scribble_str(v[i]); free(v[i]); } v[i] = NULL; }
+}
+
+/* before the outer call: decide, and sign the other request alone */
+static void nest_prepare(uint32_t h)
+{
+	nest_free(drv_nest_want);
+	drv_nlib = 0; drv_nest_bad = 0; drv_nesth = h;
+	drv_nestk = (long)((h >> 5) & 7);	/* 0, 7: none (no call makes 7 allocations) */
+	if (drv_nestk)
+		drv_nest_rc = nest_sign(drv_nest_want);
+}
+
+static void nest_now(void)
+{
+	char * got[3]; int rc, i;
+
+	rc = nest_sign(got);
+	if (rc != drv_nest_rc) drv_nest_bad = 1;
+	for (i = 0; i < 3; i++)
+		if ((got[i] == NULL) != (drv_nest_want[i] == NULL) ||
+		    (got[i] != NULL && strcmp(got[i], drv_nest_want[i]) != 0))
+			drv_nest_bad = 1;
+	nest_free(got);
+}
+
+/* an allocation by library code: returns non-zero if it is to be refused */
+static int lib_alloc(void)
+{
+	if (!drv_inlib) return 0;
+	if (++drv_nlib == drv_nestk) nest_now();
+	return (drv_failk && ++drv_nalloc == drv_failk);
+}
+
 void * __wrap_malloc(size_t n)
 {
-	if (drv_inlib && drv_failk && ++drv_nalloc == drv_failk) return NULL;
+	if (lib_alloc()) return NULL;
 	return __real_malloc(n);
 }
 
 char * __wrap_strdup(const char * s)
 {
-	if (drv_inlib && drv_failk && ++drv_nalloc == drv_failk) return NULL;
+	if (lib_alloc()) return NULL;
 	return __real_strdup(s);
 }
 
@@ -95,8 +183,10 @@ int main(void)
 	char * line; char * tok[12];
 	setvbuf(stdout, NULL, _IOLBF, 0);
 	while ((line = drv_getline()) != NULL) {
+		uint32_t h = drv_case_hash(line);
 		int n = drv_split(line, tok, 12);
 		drv_failk = 0; drv_nalloc = 0;
+		nest_prepare(h);
 		if (n >= 3 && strcmp(tok[0], "fail") == 0) {
 			int j; drv_failk = atol(tok[1]);
 			for (j = 2; j < n; j++) tok[j - 2] = tok[j];
@@ -112,6 +202,7 @@ int main(void)
 			bcp = body ? drv_input_copy(body, bodylen) : NULL;
 			drv_inlib = 1; rc = aws_sign_s3_headers(a[0], a[1], a[2], a[3], a[4], a[5], body, bodylen, &c, &d, &au); drv_inlib = 0;
 			args_done(a, 6, body, bodylen, inarena, bcp);
+			if (drv_nest_bad) printf("!other-request-disturbed ");
 			if (rc == 0) { printf("ok "); puthexstr(c); printf(" "); puthexstr(d); printf(" "); puthexstr(au); printf("\n"); free(c); free(d); free(au); }
 			else printf("fail\n");
 		} else if (n == 9 && strcmp(tok[0], "s3q") == 0) {
@@ -120,6 +211,7 @@ int main(void)
 			drv_t0 = (time_t)strtoll(tok[8], NULL, 10);
 			drv_inlib = 1; q = aws_sign_s3_querystr(a[0], a[1], a[2], a[3], a[4], a[5], atoi(tok[7])); drv_inlib = 0;
 			args_done(a, 6, NULL, 0, 0, NULL);
+			if (drv_nest_bad) printf("!other-request-disturbed ");
 			if (q) { printf("ok "); puthexstr(q); printf("\n"); free(q); } else printf("fail\n");
 		} else if (n == 7 && (strcmp(tok[0], "svc") == 0 || strcmp(tok[0], "ddb") == 0)) {
 			for (i = 0; i < 4; i++) a[i] = cstr_of(tok[1 + i]);
@@ -133,6 +225,7 @@ int main(void)
 				rc = aws_sign_dynamodb_headers(a[0], a[1], a[2], a[3], body, bodylen, &c, &d, &au);
 			drv_inlib = 0;
 			args_done(a, 4, body, bodylen, inarena, bcp);
+			if (drv_nest_bad) printf("!other-request-disturbed ");
 			if (rc == 0) { printf("ok "); puthexstr(c); printf(" "); puthexstr(d); printf(" "); puthexstr(au); printf("\n"); free(c); free(d); free(au); }
 			else printf("fail\n");
 		} else
